@@ -617,13 +617,18 @@ class SetAlg:
         """Canonical form of a term whose head is not decomposed as a set expression."""
         t = self.rewrite(t)
         h = t[0]
+        if h == "accum":
+            c = accum_as_comp(t)
+            if c is not None:
+                return self.canon_opaque(c)
         if (h == "accum" and t[1] in ("union", "concat")) or h == "bigunion":
             return self.canon_set(t)
         if h == "call" and isinstance(t[1], str) and (t[1] in CHAIN_NAMES or t[1].endswith("chain.from_iterable")) and len(t[2]) == 1:
             return self.canon_set(("bigunion", t[2][0]))
         if h == "comp":
             gens = tuple((self.canon(p), self.canon(self.strip(i) if t[1] in ("set",) else i), tuple(self._canon_cond(c) for c in cs)) for p, i, cs in t[3])
-            return ("comp", t[1], self.canon(t[2]), gens)
+            # a generator expression handed to a consumer is the sequence a list comprehension would hold
+            return ("comp", "list" if t[1] == "gen" else t[1], self.canon(t[2]), gens)
         if h in ("in", "not", "and", "or", "truth", "subset", "disjoint"):
             return self._canon_cond(t)
         if h == "call" and t[1] in ("sorted", "min", "max") and t[2] and t[2][0][0] in ("listlit", "tuplelit", "setlit") and not any(x[0] == "star" for x in t[2][0][1]):
@@ -661,6 +666,19 @@ class SetAlg:
     def _canon_cond(self, c: Term) -> Term:
         f = self.cond(c)
         return ("COND", formula_key(f))
+
+
+def accum_as_comp(t: Term) -> Term | None:
+    """One update per iteration of an empty list / dict is the comprehension with the same generators (exact: order and overwriting of
+    equal keys are those of the loop)."""
+    if len(t) < 6 or t[5] != ("const", False):
+        return None
+    kind, res, payload, gens = t[1], t[2], t[3], t[4]
+    if kind == "concat" and res == ("listlit", ()) and payload[0] == "listlit" and len(payload[1]) == 1 and payload[1][0][0] != "star":
+        return ("comp", "list", payload[1][0], tuple(gens))
+    if kind == "effect" and res == ("dictlit", ()) and payload[0] == "setitem" and len(payload) == 3:
+        return ("comp", "dict", ("kv", payload[1], payload[2]), tuple(gens))
+    return None
 
 
 def formula_key(f: Formula) -> Any:
